@@ -240,8 +240,19 @@ def tr_scalars(ctx):
     text = coerce_int[0].replace("(py_int10 maybe_int (10 : Int))", "(py_int10 maybe_int)")
     if text == coerce_int[0]:
         raise Untranslatable("int(maybe_int, 10) not found in coerce_int")
+    coerce_float = py2lean.translate_function(
+        src, "coerce_float", "coerce_float", params={"maybe_float": JV}, ret=F,
+        binders="{JV F : Type} (isEmptyStr isNone : JV → Bool) (py_float : JV → Except String F) (isNaN isInf : F → Bool) "
+                "(maybe_float : JV)",
+        externals={"float": [("py_float", [JV], F, True)]},
+        whole={"maybe_float == ''": ("(isEmptyStr maybe_float)", BOOL),
+               "maybe_float is None": ("(isNone maybe_float)", BOOL),
+               "numeric != numeric": ("(isNaN numeric)", BOOL),
+               "numeric in (float('inf'), float('-inf'))": ("(isInf numeric)", BOOL)})
+    note += ("\n/- `coerce_float`: `x == \"\"`, `x is None`, `float(x)` (partial), `f != f` (NaN) and `f in (inf, -inf)` are parameters. -/")
     return {"PyGqlModel/Generated/TrScalars.lean":
-            _file("src/py_gql/schema/scalars.py (coerce_int)", [(text, coerce_int[1], coerce_int[2])], note)}
+            _file("src/py_gql/schema/scalars.py (coerce_int, coerce_float)",
+                  [(text, coerce_int[1], coerce_int[2]), coerce_float], note)}
 
 
 EXTRA = {
